@@ -16,6 +16,7 @@ func init() {
 		e.RPerFileState()
 		e.RNewlineScan()
 		e.RClauseSym()
+		e.RHangGuard()
 		e.RCursor(false)
 		e.RFragHelpers()
 		e.RFragOrder()
